@@ -2422,7 +2422,7 @@ func (vm *Thread) opDefSetter() {
 	}
 }
 
-func (vm *Thread) AddNativeCallFrame(fileName, funcName value.Symbol, lineNumber int) *CallFrame {
+func (vm *Thread) AddNativeCallFrame(funcName, fileName value.Symbol, lineNumber int) *CallFrame {
 	cf := makeNativeCallFrame(
 		fileName,
 		funcName,
